@@ -71,6 +71,12 @@ PROPS["C03"] = dict(
         "Zrnt.Proofs.C03.domain_separation_no_collision",
         "Zrnt.Proofs.C03.M_total",
         "Zrnt.Proofs.C03.M_sound_partial",
+        "Zrnt.Proofs.C03.sound_of_refines",
+        "Zrnt.Proofs.C03.header_sound",
+        "Zrnt.Proofs.C03.exit_age_sound",
+        "Zrnt.Proofs.C03.deposit_branch_sound",
+        "Zrnt.Proofs.C03.payload_sound",
+        "Zrnt.Proofs.C03.no_panic_of_refines",
     ],
     modes=[dict(name="c03", stateful=True, max_shrinks=3, nontrivial=_nontrivial)],
     regen=[],
